@@ -11,30 +11,73 @@ PID = "C19"
 PROPS_MODULE = "NumbersModel.Props.C19"
 THEOREMS = [f"NumbersModel.Props.C19.{t}" for t in (
     "add_no_ci_duplicate", "auto_name_fresh", "dup_refused", "lookup_by_name_exact", "index_agrees_with_iteration",
-    "index_outside_raises")] + [f"NumbersModel.Props.C19.Src.{t}" for t in (
+    "index_outside_raises",
+    # the document tree (Model/DocTree.lean): names and order after save / reopen from any file order, for every history
+    "valid_after_history", "order_after_reload", "order_after_reload_saved", "order_after_reload_history", "add_sheet_appends",
+    "order_after_reload_pinned", "isolation_table_setter", "isolation_sheet_rename")] + [f"NumbersModel.Props.C19.Src.{t}" for t in (
     # the lookup clauses over ItemsList.__getitem__ as py2lean regenerates it from containers.py on every run
     "src_index_agrees_with_iteration", "src_index_outside_raises", "src_lookup_by_name_exact", "src_other_key_raises")] + \
-    [f"NumbersModel.Translated.{t}" for t in ("getitem_int_eq_model", "getitem_str_eq_model", "getitem_other")]
+    [f"NumbersModel.Translated.{t}" for t in ("getitem_int_eq_model", "getitem_str_eq_model", "getitem_other")] + \
+    [f"NumbersModel.DocTree.{t}" for t in ("run_valid", "names_perm", "tableIds_perm", "serialise_perm", "load_objects")]
 TRANSLATED_GROUPS = ("Items",)
-PARTIAL = {"order_after_reload": "names and order after save/reopen are not a theorem (they go through protobuf and the object "
-                                 "store); exercised by the oracle on every saved history"}
+PARTIAL = {
+    "add_table_appends": "that _NumbersModel.add_table puts the new table last in table_ids(sheet) and leaves the other sheets' lists alone is "
+                         "not a Lean theorem (add_sheet_appends is; for add_table the invariant Valid is proved kept, incl. that the new "
+                         "info is listed by its sheet); the in-memory order after every add is compared with the model's table_ids on every "
+                         "history (driver op Q) and checked by the oracle add-disturbs-order",
+    "isolation_labels": "isolation is proved for names and order (isolation_table_setter, isolation_sheet_rename: a table's or sheet's setter "
+                        "leaves the sheets, every sheet's table list and order, and every other name unchanged); that the other tables' caption / "
+                        "visibility / header counts / position are unchanged, and isolation between two Document objects, are checked by the "
+                        "oracle (edit-leaks-to-sibling, edit-leaks-to-other-document) and the correspondence, not proved",
+    "files_match": "order_after_reload quantifies over every package holding exactly the store's objects; that Document.save writes such a "
+                   "package (hypothesis FilesMatch of order_after_reload_saved) is compared on every saved file, member by member and "
+                   "archive by archive, with the model's serialise - not proved to be kept by create_object_from_dict when a new member's "
+                   "formatted name collides with an existing one",
+}
 RULE = ("seeded histories of add_sheet/add_table (named from a pool with case variants, generated-looking names, empty, "
         "non-ASCII incl. multi-char lowercasings; unnamed) and renames over new and loaded documents, each followed by lookups "
         "by every index in [-2n,2n], by name and `in` tests; one protocol line per collection (sheets of a document, tables of a "
-        "sheet). Non-trivial = a collection history containing at least one add; distinct by its full operation line")
+        "sheet). Document-tree stream: seeded histories over new documents and 5 fixtures of add_sheet / add_table (explicit or default "
+        "position, 2..300 rows, header counts) / sheet and table renames / name and caption visibility / caption text / header counts / "
+        "views / save + layout rewrite (id, members reversed, archives of every member reversed, both, archives rotated) + reopen; one "
+        "protocol line per history carrying the whole live store (every identifier, every member). Non-trivial = a collection history "
+        "containing at least one add, a document-tree history with an add or a reload; distinct by its full operation line")
 ASSUMPTIONS = ["str.lower() is computed by the interpreter and passed to the model as data; ('<Prefix> <n>').lower() == '<prefix> <n>'",
-               "sheet/table creation inside the model layer (protobuf objects) is not modelled; only the collection logic is"]
+               "document tree: protobuf messages are abstracted to the fields the names / order / labels code reads (DocumentArchive.sheets, "
+               "SheetArchive.name / drawable_infos, TableInfoArchive parent / tableModel / caption / caption_hidden / position, TableModelArchive "
+               "name / name visibility / header counts, caption info -> storage text); protobuf, snappy and zipfile write and read them "
+               "faithfully (exercised on every saved package through an independent reader, not proved)",
+               "the position a new table gets (create_drawable: table height + binary32 arithmetic) is read back from the real object and passed "
+               "to the model as data; positions are opaque binary32 bit patterns",
+               "Document.save creates, per table, one merge map and one tile per 256 rows and nothing else in these histories (no style or "
+               "format changes); the harness passes that list, computed from the API's num_rows, as a createOthers op",
+               "zip directory entries ('Index/') that the library keeps as empty blobs are left out of the model's member list"]
 MANIFEST = {
-    "text": "Full in memory: add_no_ci_duplicate, auto_name_fresh (fresh, smallest free number, the search loop terminates — "
+    "text": "Full in memory: add_no_ci_duplicate, auto_name_fresh (fresh, smallest free number, the search loop terminates - "
             "pigeonhole), dup_refused (IndexError, collection unchanged), lookup_by_name_exact, index_agrees_with_iteration + "
             "index_outside_raises (all integer indices) are Lean theorems about a model of ItemsList and the name choice in "
-            "add_sheet/_add_table, for every collection and every case-folding function. Names and order after save/reopen are "
-            "checked by the oracle only (partial). ItemsList.__getitem__ is additionally TRANSLATED from containers.py on "
-            "every run (harness/py2lean.py -> Gen/TrItems.lean), proved equal to the model's getByIndex/getByName "
-            "(Lemmas/TrItems.lean) and the lookup clauses are restated over the translated definition "
-            "(Props.C19.Src.src_*); the translated definition is run against the real method exhaustively on small collections.",
-    "note": "str.lower is supplied by the interpreter as data; item creation in model.py is not modelled.",
-    "technique": "Lean 4 proof (invariant preservation, pigeonhole for termination; __getitem__ proved equal to its translation from the Python source) + differential correspondence on edit histories",
+            "add_sheet/_add_table, for every collection and every case-folding function. ItemsList.__getitem__ is additionally TRANSLATED "
+            "from containers.py on every run (harness/py2lean.py -> Gen/TrItems.lean), proved equal to the model's getByIndex/getByName "
+            "(Lemmas/TrItems.lean) and the lookup clauses are restated over the translated definition (Props.C19.Src.src_*). "
+            "Names and order after save/reopen are now theorems about Model/DocTree.lean, a model of the object store (insertion-ordered "
+            "map, members with their archives in file order, create_object_from_dict), sheet_ids / sheet_name / table_ids (as repaired: "
+            "membership by parent over the store's iteration order, order by a stable sort on the position in the sheet's drawable list) / "
+            "table_info_id / table_name / caption and visibility accessors / header counts, _NumbersModel.add_sheet and add_table (every "
+            "object created, in code order), serialise (update_object_file_store + members in order) and load (store rebuilt in FILE "
+            "order): order_after_reload (for EVERY package that holds exactly the store's objects - archives and members in any order - the "
+            "reopened document shows the same sheets in the same order and per sheet the same tables in the same order), "
+            "order_after_reload_saved (the saved package and every rearrangement of it), valid_after_history / order_after_reload_history "
+            "(the side conditions - distinct identifiers, every table info listed by its parent sheet, table models not shared - are kept "
+            "by every history of add_sheet / add_table / renames / caption, visibility and header-count setters / creation of other objects), "
+            "add_sheet_appends, isolation_table_setter / isolation_sheet_rename. The pinned table_ids (store order) is kept as "
+            "tableIdsPinned with a counter-example by decide and the exact condition under which it keeps the order "
+            "(order_after_reload_pinned).",
+    "note": "str.lower is supplied by the interpreter as data. Defect found and repaired (fixes/C06-table-order-from-drawable-list.patch): "
+            "table order inside a sheet followed the order of the archives inside Index/CalculationEngine.iwa. Known finding "
+            "edit-raises-on-reordered-container (add_sheet on a container that lists Metadata/DocumentIdentifier before Index/Document.iwa).",
+    "technique": "Lean 4 proof (invariant preservation over operation histories, permutation invariance of a stable sort with injective keys, "
+                 "pigeonhole for termination; __getitem__ proved equal to its translation from the Python source) + differential correspondence "
+                 "on edit histories incl. the saved package read independently and reopened from rewritten layouts",
 }
 
 POOL = ["Sheet 1", "sheet 1", "SHEET 2", "Sheet 2", "Table 1", "table 1", "TABLE 2", "Table 3", "table 3", "Sheet 10", "sheet 02",
@@ -260,6 +303,7 @@ def run(ctx: Ctx):
         out.append(c.result())
     ctx.correspond("all indices in [-2n-1, 2n+1] for n = 1..6 sheets", req, out, exhaustive=True, keep=1)
     getitem_stream(ctx)
+    doctree_stream(ctx)
 
 
 def getitem_stream(ctx: Ctx):
@@ -315,9 +359,266 @@ def getitem_stream(ctx: Ctx):
         sub["skipped_model"] = True
 
 
+# ---------------------------------------------------------------------------------------------------------------
+# the document tree: sheet / table references, names, labels — in memory, in the saved package, after reopening it
+# from any file order (Model/DocTree.lean)
+# ---------------------------------------------------------------------------------------------------------------
+DT_SOURCES = [None, None, None, "test-1.numbers", "test-7.numbers", "issue-77.numbers", "create-formulas.numbers", "test-bgcolour.numbers"]
+DT_NAMES = ["Alpha", "beta", "Γ", "Data 2", "x", "Sheet 9", "Table 9", "Élan", "名前", "a b", "Z-1", "Q", "R2", "s3", "T4", "u5", "V6",
+            "w7", "X8", "y9"]
+DT_CAPTIONS = ["", "A caption", "Caption", "zwei\nZeilen", "é", "x" * 40]
+
+
+def _dt_target_diff(before, after):
+    """positions (sheet index, table index or None) at which two plain views differ; None when the shapes differ"""
+    if len(before) != len(after):
+        return None
+    out = []
+    for i, (a, b) in enumerate(zip(before, after)):
+        if a[0] != b[0]:
+            out.append((i, None))
+        if len(a[1]) != len(b[1]):
+            return None
+        for j, (x, y) in enumerate(zip(a[1], b[1])):
+            if x != y:
+                out.append((i, j))
+    return out
+
+
+def doctree_history(ctx: Ctx, hid: int, src, nops: int, foreign: bool = False):
+    import doctree
+    import layouts
+    from numbers_parser import Document
+    rng = ctx.rng
+    path = str(REPO / "tests/data" / src) if src else None
+    doc = Document(path) if path else Document(num_rows=rng.choice([3, 12]), num_cols=rng.choice([2, 8]))
+    twin = Document(path) if path else Document()
+    twin_view = doctree.plain_view(twin)
+    where = {"history": hid, "seed": ctx.seed, "source": src, "stream": "doctree"}
+    log: list = [] if path else [["new", doc.sheets[0].tables[0].num_rows, doc.sheets[0].tables[0].num_cols]]
+    facts0 = doctree.store_facts(doc)
+    if facts0:
+        ctx.notes.append(f"{src}: side condition of the reload theorems does not hold for the document as loaded: {facts0[:2]}")
+    init = doctree.snapshot(doc)
+    ops, outs = [], []
+    used = {s.name.lower() for s in doc.sheets} | {t.name.lower() for s in doc.sheets for t in s.tables}
+    tmp = tempfile.mkdtemp(prefix="c19dt")
+    nfile = 0
+    dead = False
+
+    def fresh():
+        for _ in range(50):
+            nm = rng.choice(DT_NAMES) + rng.choice(["", "", " 2", "'", "ß"])
+            if nm.lower() not in used:
+                used.add(nm.lower())
+                return nm
+        nm = f"n{len(used)}"
+        used.add(nm)
+        return nm
+
+    def expect_only(before, targets, what):
+        after = doctree.plain_view(doc)
+        d = _dt_target_diff(before, after)
+        if d is None or any(x not in targets for x in d):
+            ctx.violation("edit-leaks-to-sibling", f"{what}: changed {d!r}, expected only {sorted(targets)!r}; before {before!r} after {after!r}",
+                          {**where, "log": list(log)})
+
+    try:
+        for step_no in range(nops + (1 if foreign else 0)):
+            if dead:
+                break
+            r = rng.random() if step_no < nops else 0.99
+            before = doctree.plain_view(doc)
+            ns = len(doc.sheets)
+            if r < 0.12 and ns < 5:
+                nm, tn = fresh(), fresh()
+                rows, cols = rng.choice([2, 5, 300]), rng.choice([2, 3])
+                prev = doc.sheets[-1].tables[0]._table_id
+                log.append(["add_sheet", nm, tn, rows, cols])
+                try:
+                    doc.add_sheet(nm, tn, num_rows=rows, num_cols=cols)
+                    s = doc.sheets[-1]
+                    ops += [f"AS {enc_text(nm)}", f"AT {s._sheet_id} {enc_text(tn)} {prev} 0 0 {rows} 1 1"]
+                    outs += [f"ok {s._sheet_id}", f"ok {s.tables[0]._table_id}"]
+                    after = doctree.plain_view(doc)
+                    if after[:ns] != before or len(after) != ns + 1 or after[ns][0] != nm or [t[0] for t in after[ns][1]] != [tn]:
+                        ctx.violation("add-disturbs-order", f"add_sheet({nm!r}, {tn!r}): before {before!r} after {after!r}", {**where, "log": list(log)})
+                except Exception as e:  # noqa: BLE001
+                    ops.append(f"AS {enc_text(nm)}")
+                    outs.append("err " + exc_name(e))
+                    dead = True
+                    if isinstance(e, AttributeError) and foreign:
+                        ctx.count("add_sheet raised AttributeError on a member-reversed container (C19 known finding): history ended", 1)
+                    else:
+                        ctx.violation("edit-raises-on-reordered-container" if isinstance(e, AttributeError) else "add-wrong-exception",
+                                      f"add_sheet({nm!r}) raised {exc_name(e)}: {e}", {**where, "log": list(log)})
+            elif r < 0.34:
+                si = rng.randrange(ns)
+                s = doc.sheets[si]
+                if len(s.tables) >= 5:
+                    continue
+                nm = fresh()
+                rows, cols = rng.choice([2, 4, 257]), rng.choice([2, 3])
+                hr, hc = rng.randrange(0, 3), rng.randrange(0, 3)
+                xy = (None, None) if rng.random() < 0.5 else (rng.randrange(0, 2000) / 4, rng.randrange(0, 4000) / 4)
+                frm = s.tables[-1]._table_id
+                nt = len(s.tables)
+                log.append(["add_table", si, nm, xy[0], xy[1], rows, cols, hr, hc])
+                try:
+                    t = s.add_table(nm, xy[0], xy[1], rows, cols, hr, hc)
+                    x, y = t.coordinates
+                    ops.append(f"AT {s._sheet_id} {enc_text(nm)} {frm} {doctree.f32bits(x)} {doctree.f32bits(y)} {rows} {hr} {hc}")
+                    outs.append(f"ok {t._table_id}")
+                    after = doctree.plain_view(doc)
+                    ok = len(after) == ns and all(after[i] == before[i] for i in range(ns) if i != si) and \
+                        after[si][0] == before[si][0] and after[si][1][:nt] == before[si][1] and len(after[si][1]) == nt + 1 and \
+                        after[si][1][nt][0] == nm
+                    if not ok:
+                        ctx.violation("add-disturbs-order", f"add_table({nm!r}) on sheet #{si}: before {before!r} after {after!r}", {**where, "log": list(log)})
+                except Exception as e:  # noqa: BLE001
+                    dead = True
+                    ctx.violation("add-wrong-exception", f"add_table({nm!r}) raised {exc_name(e)}: {e}", {**where, "log": list(log)})
+            elif r < 0.44:
+                si = rng.randrange(ns)
+                nm = fresh()
+                log.append(["rename_sheet", si, nm])
+                doc.sheets[si].name = nm
+                ops.append(f"SN {doc.sheets[si]._sheet_id} {enc_text(nm)}")
+                outs.append("ok")
+                expect_only(before, {(si, None)}, f"sheets[{si}].name = {nm!r}")
+            elif r < 0.8:
+                si = rng.randrange(ns)
+                s = doc.sheets[si]
+                ti = rng.randrange(len(s.tables))
+                t = s.tables[ti]
+                kind = rng.choice(["name", "name_enabled", "caption_enabled", "caption", "hdr_rows", "hdr_cols"])
+                tid = t._table_id
+                if kind == "name":
+                    v = fresh()
+                    log.append(["table", si, ti, kind, v])
+                    t.name = v
+                    ops.append(f"TN {tid} {enc_text(v)}")
+                elif kind == "name_enabled":
+                    v = rng.random() < 0.5
+                    log.append(["table", si, ti, kind, v])
+                    t.table_name_enabled = v
+                    ops.append(f"NE {tid} {int(v)}")
+                elif kind == "caption_enabled":
+                    v = rng.random() < 0.5
+                    log.append(["table", si, ti, kind, v])
+                    t.caption_enabled = v
+                    ops.append(f"CE {tid} {int(v)}")
+                elif kind == "caption":
+                    v = rng.choice(DT_CAPTIONS)
+                    log.append(["table", si, ti, kind, v])
+                    try:
+                        t.caption = v
+                    except (IndexError, StopIteration) as e:
+                        # C16 known finding `caption-setter-raises` (documents without the objects a new caption needs)
+                        ctx.count(f"caption setter raised {exc_name(e)} (C16 known finding caption-setter-raises): history ended", 1)
+                        dead = True
+                        continue
+                    ops.append(f"CT {tid} {enc_text(v)}")
+                elif kind == "hdr_rows":
+                    v = rng.randrange(0, min(t.num_rows, 5) + 1)
+                    log.append(["table", si, ti, kind, v])
+                    t.num_header_rows = v
+                    ops.append(f"HR {tid} {v}")
+                else:
+                    v = rng.randrange(0, min(t.num_cols, 5) + 1)
+                    log.append(["table", si, ti, kind, v])
+                    t.num_header_cols = v
+                    ops.append(f"HC {tid} {v}")
+                outs.append("ok")
+                expect_only(before, {(si, ti)}, f"sheets[{si}].tables[{ti}].{kind} = {v!r}")
+                got = doctree.plain_view(doc)[si][1][ti]
+                idx = {"name": 0, "name_enabled": 1, "caption": 3, "hdr_rows": 4, "hdr_cols": 5}.get(kind)
+                if idx is not None and got[idx] != v:
+                    ctx.violation("setter-not-seen-by-getter", f"sheets[{si}].tables[{ti}].{kind} = {v!r} then reads {got[idx]!r}", {**where, "log": list(log)})
+            elif r < 0.88:
+                ops.append("Q")
+                outs.append(doctree.api_view(doc))
+            else:
+                mode = rng.choice(doctree.MODES if step_no < nops else ("reva", "rota", "both"))
+                log.append(["save_reopen", mode])
+                # what Document.save creates: per table (sheet by sheet) a merge map, then one tile per 256 rows
+                created = []
+                for s in doc.sheets:
+                    for t in s.tables:
+                        created += ["CalculationEngine"] + ["Index/Tables/Tile-{}"] * (((t.num_rows - 1) >> 8) + 1)
+                nfile += 1
+                p1, p2 = os.path.join(tmp, f"a{nfile}.numbers"), os.path.join(tmp, f"b{nfile}.numbers")
+                doc.save(p1)
+                pkg = layouts.Package.load(p1)
+                ops += [f"CO {len(created)} " + " ".join(enc_text(c) for c in created), "Q", "SV", f"LD {mode}", "Q"]
+                outs += ["ok", doctree.api_view(doc), "ok " + doctree.package_view(pkg), "ok"]
+                doctree.rewrite(pkg, mode).write_zip(p2)
+                doc = Document(p2)
+                outs.append(doctree.api_view(doc))
+                after = doctree.plain_view(doc)
+                if not facts0 and doctree.store_facts(doc):
+                    ctx.violation("store-side-condition-lost", f"after reopening: {doctree.store_facts(doc)[:3]}", {**where, "log": list(log)})
+                ctx.count(f"save / rewrite ({mode}) / reopen: names, order and labels", 1)
+                if [(a[0], [t[0] for t in a[1]]) for a in after] != [(a[0], [t[0] for t in a[1]]) for a in before]:
+                    ctx.violation("names-or-order-change-on-reload" if mode == "id" else "names-or-order-depend-on-file-order",
+                                  f"layout {mode}: before save {[(a[0], [t[0] for t in a[1]]) for a in before]!r}, after reopen "
+                                  f"{[(a[0], [t[0] for t in a[1]]) for a in after]!r}", {**where, "log": list(log)})
+                elif after != before:
+                    ctx.violation("label-changes-on-reload", f"layout {mode}: before save {before!r}, after reopen {after!r}", {**where, "log": list(log)})
+                os.unlink(p1)
+                os.unlink(p2)
+        if not dead:
+            ops.append("Q")
+            outs.append(doctree.api_view(doc))
+            facts = doctree.store_facts(doc)
+            if facts and not facts0:
+                ctx.violation("store-side-condition-lost", f"after the history: {facts[:3]}", {**where, "log": list(log)})
+        if doctree.plain_view(twin) != twin_view:
+            ctx.violation("edit-leaks-to-other-document", f"a second document opened from the same source changed: {twin_view!r} -> {doctree.plain_view(twin)!r}",
+                          {**where, "log": list(log)})
+    finally:
+        import shutil
+        shutil.rmtree(tmp, ignore_errors=True)
+    return "doctree hist " + init + " " + " ".join(ops), ";".join(outs), log
+
+
+def _dt_worker(task):
+    import warnings
+    warnings.simplefilter("ignore")
+    seed, h, src, foreign = task
+    sub = Ctx(PID, "quick", seed * 1_000_003 + 77_777 + h)
+    sub.seed = seed
+    line, out, log = doctree_history(sub, h, src, sub.rng.randrange(4, 14), foreign)
+    if h < 2:
+        sub.sample({"stream": "doctree", "source": src, "log": log[:10]})
+    return common.sub_result(sub, (line, out, " AT " in line or " AS " in line or " LD " in line))
+
+
+def doctree_stream(ctx: Ctx, n_hist: int | None = None, foreign: bool = False):
+    """foreign=True: called from another property's check (C16 labels, C06 table order): a smaller volume, every history ends
+    with a save + non-trivial layout rewrite + reopen, and C19's own known finding is not reported there."""
+    if n_hist is None:
+        n_hist = 96 if ctx.quick else 2400
+    tasks = []
+    for h in range(n_hist):
+        src = DT_SOURCES[h % len(DT_SOURCES)]
+        if src and not (REPO / "tests/data" / src).exists():
+            src = None
+        tasks.append((ctx.seed, h, src, foreign))
+    req, out, nt = [], [], {}
+    for line, o, nontriv in common.run_parallel(ctx, _dt_worker, tasks):
+        req.append(line)
+        out.append(o)
+        nt[line] = nontriv
+    ctx.correspond("document-tree histories: ids, names, order, labels in memory; the saved package member by member; after reopening "
+                   "a rewritten layout", req, out, keep=0, describe=lambda r: r[:200], nontrivial=lambda r, o: nt.get(r, False))
+
+
 def replay(data):
     from numbers_parser import Document
     i = data["input"]
+    if i.get("stream") == "doctree":
+        return replay_doctree(i)
     src = i.get("source")
     doc = Document(str(REPO / "tests/data" / src)) if src else Document()
     res = []
@@ -343,3 +644,47 @@ def replay(data):
         except Exception as e:  # noqa: BLE001
             extra["sheets[index]"] = exc_name(e)
     return {"ops": res, "final": state, **extra}
+
+
+def replay_doctree(i):
+    """re-run one document-tree history on the real code; returns the view after every step"""
+    import doctree
+    import layouts
+    from numbers_parser import Document
+    src = i.get("source")
+    doc = None
+    res = []
+    tmp = tempfile.mkdtemp(prefix="c19rp")
+    try:
+        log = list(i.get("log", []))
+        if log and log[0][0] == "new":
+            doc = Document(num_rows=log[0][1], num_cols=log[0][2])
+            log = log[1:]
+        else:
+            doc = Document(str(REPO / "tests/data" / src)) if src else Document()
+        for k, op in enumerate(log):
+            try:
+                if op[0] == "add_sheet":
+                    doc.add_sheet(op[1], op[2], num_rows=op[3], num_cols=op[4])
+                elif op[0] == "add_table":
+                    doc.sheets[op[1]].add_table(op[2], op[3], op[4], op[5], op[6], op[7], op[8])
+                elif op[0] == "rename_sheet":
+                    doc.sheets[op[1]].name = op[2]
+                elif op[0] == "table":
+                    t = doc.sheets[op[1]].tables[op[2]]
+                    attr = {"name": "name", "name_enabled": "table_name_enabled", "caption_enabled": "caption_enabled", "caption": "caption",
+                            "hdr_rows": "num_header_rows", "hdr_cols": "num_header_cols"}[op[3]]
+                    setattr(t, attr, op[4])
+                elif op[0] == "save_reopen":
+                    p1, p2 = os.path.join(tmp, f"a{k}.numbers"), os.path.join(tmp, f"b{k}.numbers")
+                    doc.save(p1)
+                    doctree.rewrite(layouts.Package.load(p1), op[1]).write_zip(p2)
+                    doc = Document(p2)
+                res.append([op, "ok", [(s.name, [t.name for t in s.tables]) for s in doc.sheets]])
+            except Exception as e:  # noqa: BLE001
+                res.append([op, exc_name(e) + ": " + str(e)])
+                break
+    finally:
+        import shutil
+        shutil.rmtree(tmp, ignore_errors=True)
+    return {"steps": res, "final": repr(doctree.plain_view(doc)) if doc is not None else None}
